@@ -11,12 +11,15 @@ struct RBase : Profile {
   // extra statements (JSON AST) appended to the body by a property (e.g. loop lattice, call histories)
   virtual void extra_statements(Rng&, json& /*ast*/, GenProgram&) const {}
   virtual bool with_probe() const { return true; }
+  // further units run after program and probe, each compiled and run on its own in the same context (a unit ended by an
+  // error does not stop the history)
+  virtual std::vector<std::vector<json>> extra_units(Rng&, const json& /*ast*/, GenProgram&) const { return {}; }
   virtual bool per_step_checks() const { return false; }
   virtual double cancel_rate() const { return 0.1; }
 
   json components() const override { return json{{"real", {"Parser::parse", "Executable::run", "statement and expression trees", "Context (control / exec stacks, temporary pool)", "FunctorManager (runtime context cache)", "vf module"}}, {"stub", json::array()}}; }
   std::vector<std::string> assumptions() const override { return {"the reference interpreter models the manual's semantics for the generated subset only (integers within +-10^6, booleans, ASCII strings, integer tables, tuples, user functions, begin/exception, for/forall/while); at most one sub-expression per expression has an observable effect, so operand evaluation order is never observed", "error identity is compared as class (error number, user name), never as message text", "after bloc_break only residue invariants and memory safety are checked"}; }
-  json sample(const json& plan) const override { json s = plan; s.erase("ast"); s.erase("probe_ast"); for (const char* k : {"text", "probe"}) if (s.contains(k) && s[k].get<std::string>().size() > 800) s[k] = s[k].get<std::string>().substr(0, 800) + "..."; return s; }
+  json sample(const json& plan) const override { json s = plan; s.erase("ast"); s.erase("probe_ast"); s.erase("units_ast"); for (const char* k : {"text", "probe"}) if (s.contains(k) && s[k].get<std::string>().size() > 800) s[k] = s[k].get<std::string>().substr(0, 800) + "..."; return s; }
 
   // fault enumeration: the runs of one group share the program; run k of the group arms fault point (k mod points)
   virtual uint64_t group_size(const std::string& tier) const { return tier == "thorough" ? 64 : 16; }
@@ -24,6 +27,7 @@ struct RBase : Profile {
   void fill(json& plan) const {
     plan["text"] = enc(print_program(plan["ast"]));
     if (plan.contains("probe_ast")) { std::vector<json> st; for (auto& s : plan["probe_ast"]) st.push_back(s); plan["probe"] = enc(print_statements(st)); }
+    if (plan.contains("units_ast")) { json t = json::array(); for (auto& u : plan["units_ast"]) { std::vector<json> st; for (auto& s : u) st.push_back(s); t.push_back(enc(print_statements(st))); } plan["units"] = t; }
   }
 
   json generate(uint64_t vseed, uint64_t runno, const std::string& tier) override {
@@ -41,6 +45,7 @@ struct RBase : Profile {
       if (b.size() > n0 && n0 > 0) { json nb = json::array(); for (size_t i = n0; i < b.size(); ++i) nb.push_back(b[i]); for (size_t i = 0; i < n0; ++i) nb.push_back(b[i]); b = nb; } }
     json plan; plan["property"] = id(); plan["ast"] = p.ast;
     if (with_probe() && !p.extra_bodies.empty()) plan["probe_ast"] = p.extra_bodies[0];
+    { Rng ur(subseed(vseed, std::string(id()) + "/units", group)); auto us = extra_units(ur, p.ast, p); if (!us.empty()) { json ua = json::array(); for (auto& u : us) { json a = json::array(); for (auto& s : u) a.push_back(s); ua.push_back(a); } plan["units_ast"] = ua; } }
     fill(plan);
     Rng fr(runseed(vseed, runno));
     // enumerated single faults first (every fault point of the program, error kinds cycling), then random fault sets, then fault-free
@@ -64,12 +69,16 @@ struct RBase : Profile {
     std::vector<std::vector<json>> units; units.push_back(program_statements(plan["ast"]));
     std::vector<std::string> texts = {dec(plan.value("text", ""))};
     if (plan.contains("probe_ast")) { std::vector<json> st; for (auto& s : plan["probe_ast"]) st.push_back(s); units.push_back(st); texts.push_back(dec(plan.value("probe", ""))); }
+    if (plan.contains("units_ast")) { size_t i = 0; for (auto& u : plan["units_ast"]) { std::vector<json> st; for (auto& s : u) st.push_back(s); units.push_back(st); texts.push_back(dec(plan["units"][i++].get<std::string>())); } }
     RConfig rc; rc.faults = fs; rc.max_steps = 100000;
     RResult rr = ref_run_units(units, rc);
     long cancel_at = plan.value("cancel_at", 0L);
     // bounded liveness: a budget relative to the model's own step count, never a wall-clock timeout
     long budget = 200 + 30 * rr.steps;
     ImplRun im = impl_run(texts, fs, rr.unsupported ? 100000 : budget, cancel_at, per_step_checks());
+    if (!im.rejected_units.empty()) { // follow the compiler where the manual allows rejection as well as conversion
+      RConfig rc2 = rc; rc2.faults = fs; rc2.rejected_units = im.rejected_units; RResult r2 = ref_run_units(units, rc2);
+      if (normalise_outcome(r2.outcome) != normalise_outcome(rr.outcome)) { ++res.probes["unit_rejected_where_conversion_is_allowed"]; rr = r2; } }
     VfHost& host = VfHost::get();
     ev.add(im.outcome); ev.add(im.out); for (auto& kv : im.store) ev.add(kv.first + "=" + kv.second);
     res.steps = im.steps;
@@ -77,13 +86,14 @@ struct RBase : Profile {
     if (im.outcome.find("runtime_error") != std::string::npos) { res.nontrivial = true; ++res.probes["unit_ended_by_error"]; }
     if (cancel_at > 0 && im.steps >= cancel_at) { ++res.faults["cancel"]; res.faulty = true; res.nontrivial = true; }
     bool cancelled = cancel_at > 0 && im.steps >= cancel_at;
-    if (!im.parsed && rr.outcome.find("parse_error") == std::string::npos) { ++res.probes["program_rejected"]; fail("M/harness-generated-program-rejected", im.parse_error); }
+    auto count_pe = [](const std::string& o) { size_t n = 0, p = 0; while ((p = o.find("parse_error", p)) != std::string::npos) { ++n; p += 11; } return n; };
+    if (!im.parsed && !rr.unsupported && count_pe(im.outcome) > count_pe(rr.outcome)) { ++res.probes["program_rejected"]; fail("M/harness-generated-program-rejected", im.parse_error); }
     else if (im.outcome.find("foreign_exception") != std::string::npos) fail(prop() + "/foreign-exception", im.outcome);
     else if (!im.residue.empty()) fail(prop() + "/residue", im.residue + (cancelled ? " (after bloc_break)" : "") + "; outcome " + im.outcome);
     else if (!im.uniform.empty()) fail(prop() + "/container-not-uniform", im.uniform);
     else if (!im.constants.empty()) fail(prop() + "/program-text-changed-by-running", im.constants);
     else if (!im.constraint.empty()) fail(prop() + "/type-constraint-broken", im.constraint);
-    else if (rr.unsupported) { ++res.probes["model_unsupported"]; ev.add("unsupported:" + rr.unsupported_why); }
+    else if (rr.unsupported) { ++res.probes["model_unsupported"]; ++res.probes["model_unsupported: " + rr.unsupported_why.substr(0, 60)]; ev.add("unsupported:" + rr.unsupported_why); }
     else if (cancelled) { /* only invariants */ }
     else if (im.budget_exceeded) fail(prop() + "/no-progress-within-step-budget", "statement steps " + std::to_string(im.steps) + " > budget " + std::to_string(budget) + " (model took " + std::to_string(rr.steps) + ")");
     else { std::string d = compare_with_model(im, rr); if (!d.empty()) fail(prop() + "/diverges-from-reference-interpreter", d); }
@@ -101,6 +111,7 @@ struct RBase : Profile {
     if (plan.value("cancel_at", 0L) > 0) { json p = plan; p["cancel_at"] = 0; v.push_back(p); }
     if (plan.contains("probe_ast")) { json p = plan; p.erase("probe_ast"); p.erase("probe"); v.push_back(p); }
     if (plan.contains("probe_ast")) for (size_t i = 0; i < plan["probe_ast"].size(); ++i) { json p = plan; p["probe_ast"].erase(p["probe_ast"].begin() + i); fill(p); v.push_back(p); }
+    if (plan.contains("units_ast")) for (size_t i = 0; i < plan["units_ast"].size(); ++i) { json p = plan; p["units_ast"].erase(p["units_ast"].begin() + i); fill(p); v.push_back(p); }
     for (json& a : shrink_ast(plan["ast"])) { json p = plan; p["ast"] = a; fill(p); v.push_back(p); if (v.size() > 260) break; }
     return v;
   }
